@@ -8,6 +8,7 @@ import Rtcp.Props.Writers
 import Rtcp.Props.Rules
 import Rtcp.Props.RoundTrip
 import Rtcp.Proofs.CompoundE2E
+import Rtcp.Props.Sdes
 
 namespace Rtcp.Proofs
 open Rtcp Rtcp.Impl Rtcp.Spec Rtcp.Props
@@ -76,5 +77,26 @@ theorem app_written {ε : Type} (b : AppBuilder) (buf : Bytes) (n : Nat) (h : (b
     (App.padding (appImage b) : R ε (Option UInt8)) = .ok (getPaddingOf b.padding) := by
   obtain ⟨hs, _, himg, _⟩ := writeInto_ok_inv (Props.app_refines b) buf n h
   exact ⟨himg, Props.app_roundtrip b ((Props.app_rules b).accept_iff.mp ⟨n, hs⟩)⟩
+
+theorem sdes_written {ε : Type} (b : SdesBuilder) (hz : ∀ c ∈ b.chunks, ∀ it ∈ c.items, it.type ≠ 0)
+    (buf : Bytes) (n : Nat) (h : (b.toWriter.writeInto buf).2 = .ok n) :
+    ((b.toWriter.writeInto buf).1).take n = sdesImage b ∧
+    ∃ v, Sdes.parse (sdesImage b) = .ok v ∧
+      v.chunks.map chunkAsRef = b.chunks.map chunkCfgAsRef ∧
+      (Sdes.padding v : R ε (Option UInt8)) = .ok (getPaddingOf b.padding) := by
+  obtain ⟨hs, _, himg, _⟩ := writeInto_ok_inv (Props.sdes_refines b) buf n h
+  exact ⟨himg, Props.sdes_roundtrip b ((Props.sdes_rules b).accept_iff.mp ⟨n, hs⟩) hz⟩
+
+theorem fb_written {ε : Type} (k : FbKind) (f : FciB) (hf : FciOk f) (p : UInt8) (s m : UInt32)
+    (buf : Bytes) (n : Nat) (h : ((FbBuilder.toWriter ⟨k, f.toFci, p, s, m⟩).writeInto buf).2 = .ok n) :
+    (((FbBuilder.toWriter ⟨k, f.toFci, p, s, m⟩).writeInto buf).1).take n = fbImage k f p s m ∧
+    Fb.parse k (fbImage k f p s m) = .ok (fbImage k f p s m) ∧
+    (Fb.senderSsrc (fbImage k f p s m) : R ε UInt32) = .ok s ∧
+    (Fb.mediaSsrc (fbImage k f p s m) : R ε UInt32) = .ok m ∧
+    (Fb.padding (fbImage k f p s m) : R ε (Option UInt8)) = .ok (getPaddingOf p) ∧
+    (hCount (fbImage k f p s m) : R ε UInt8) = .ok (fciFormat f).toUInt8 ∧
+    Fb.parseFci k (fciTypeOf f) (fbImage k f p s m) = (fciTypeOf f).parse (fciImage f) := by
+  obtain ⟨hs, _, himg, _⟩ := writeInto_ok_inv (Props.fb_refines k f hf p s m) buf n h
+  exact ⟨himg, Props.fb_roundtrip k f hf p s m ((Props.fb_rules k f hf p s m).accept_iff.mp ⟨n, hs⟩)⟩
 
 end Rtcp.Proofs
